@@ -38,6 +38,9 @@ class QHooks(Hooks):
     inline_unit = None     # inline every function defined in this unit (besides inline_names)
     no_inline = frozenset()
 
+    entry_unit = None      # set by the engine: unit of the function being explored
+    inline_same_unit = True  # helpers defined next to the explored function are part of it
+
     def inline(self, fn, depth):
         if fn.name in self.no_inline:
             return False
@@ -45,6 +48,8 @@ class QHooks(Hooks):
             return True
         if self.inline_unit and fn.unit == self.inline_unit:
             return True
+        if self.inline_same_unit and self.entry_unit and fn.unit == self.entry_unit and not fn.sys and not fn.noreturn:
+            return True     # noreturn helpers stay events (on_exit), everything else next to the entry is part of it
         return False
 
     def tracked_global(self, path):
@@ -200,3 +205,81 @@ def holds_set(cond, truth, var_pred):
     if var_pred(c):
         return lambda v: bool(v) == want
     return None
+
+
+# ------------------------------------------------------------------ semantic guard helpers
+def _cmp_parts(c):
+    """(var X, op, const) for `var op const` / `const op var`, through any number of '!' ; None otherwise.
+    returns (varx, fn int->bool)"""
+    import operator
+    c = c.strip()
+    neg = False
+    while c is not None and c.k == 'un' and c.op == '!':
+        neg = not neg
+        c = c.args[0].strip()
+    if c is None:
+        return None
+    ops = {'<': operator.lt, '<=': operator.le, '>': operator.gt, '>=': operator.ge, '==': operator.eq, '!=': operator.ne}
+    if c.k == 'bin' and c.op in ops:
+        a, b = c.args
+        if b is not None and b.const is not None and a is not None and a.const is None:
+            k, op, v = b.const, c.op, a
+        elif a is not None and a.const is not None and b is not None and b.const is None:
+            k, v = a.const, b
+            op = {'<': '>', '>': '<', '<=': '>=', '>=': '<=', '==': '==', '!=': '!='}[c.op]
+        else:
+            return None
+        f = ops[op]
+        return v, (lambda x, f=f, k=k, neg=neg: f(x, k) != neg)
+    if c.const is None and c.k in ('ref', 'cast', 'mem', 'idx', 'un'):
+        return c, (lambda x, neg=neg: bool(x) != neg)
+    return None
+
+
+def fresh_guards(fn, x):
+    return fn.guards(x) or []
+
+
+def consistent_values(fn, x, universe, key=None):
+    """for every expression that the (fresh) guards of x compare with constants: the subset of `universe`
+    that passes all of those guards.  key(X) names the expression (default: normalised source)."""
+    key = key or (lambda v: v.strip().src())
+    out = {}
+    for c, t in fresh_guards(fn, x):
+        if t not in (True, False):
+            continue
+        p = _cmp_parts(c)
+        if p is None:
+            continue
+        v, f = p
+        k = key(v)
+        cur = out.get(k, set(universe))
+        out[k] = {u for u in cur if f(u) == t}
+    return out
+
+
+def unit_callees(prog, fn, depth=3):
+    """fn plus the functions of the same unit it calls (transitively, bounded)"""
+    seen = {fn.name: fn}
+    work = [(fn, 0)]
+    while work:
+        f, d = work.pop()
+        if d >= depth:
+            continue
+        for c in f.calls():
+            nm = c.callee
+            if nm and nm not in seen:
+                g = prog.resolve(nm, f.unit)
+                if g is not None and g.blocks and g.unit == fn.unit:
+                    seen[nm] = g
+                    work.append((g, d + 1))
+    return list(seen.values())
+
+
+def deep_calls(prog, fn, names, depth=3):
+    """calls to `names` in fn or in same-unit helpers it calls: list of (function, call X)"""
+    out = []
+    for f in unit_callees(prog, fn, depth):
+        for c in f.calls(names):
+            out.append((f, c))
+    return out
